@@ -347,6 +347,8 @@ def run_check(pid: str, tier: str, seed: int, n_override=None, workers=None, bud
         path = os.path.join(OUT, name)
         with open(path, "w") as f:
             json.dump(small, f, indent=1, sort_keys=True)
+        with open(path[:-5] + ".orig", "w") as f:
+            json.dump(dict(sc, property=pid, expect={"class": cls, "detail": detail}), f, indent=1, sort_keys=True, default=str)
         violations_out.append((cls, detail, small, path))
     for cls, detail, sc, path in violations_out:
         env = dict(os.environ, PYTHONHASHSEED="0")
